@@ -5,6 +5,7 @@ package main
 
 import (
 	"fmt"
+	"reflect"
 	"strings"
 
 	"github.com/mfcochauxlaberge/jsonapi"
@@ -45,6 +46,26 @@ func (o c18TOp) String() string {
 }
 
 func c18Types(c *ctx, t typeSpec, useNew bool, ops []c18TOp) {
+	c18TypesOn(c, t, useNew, ops, false)
+	if tagSafeSpec(t) {
+		// the same with a type that BuildType made from a Go struct (it carries a NewFunc)
+		c18TypesOn(c, t, useNew, ops, true)
+	}
+}
+
+func tagSafeSpec(t typeSpec) bool {
+	if !tagSafe(t.name) {
+		return false
+	}
+	for _, f := range t.fields {
+		if !tagSafe(f.name) || (f.rel && !tagSafe(f.target)) || (f.rel && f.inv != "" && !tagSafe(f.inv)) {
+			return false
+		}
+	}
+	return true
+}
+
+func c18TypesOn(c *ctx, t typeSpec, useNew bool, ops []c18TOp, built bool) {
 	var steps, descs, gops []string
 	var key, detail string
 	for _, o := range ops {
@@ -53,6 +74,13 @@ func c18Types(c *ctx, t typeSpec, useNew bool, ops []c18TOp) {
 	}
 	p, pv := guard(func() {
 		ty := t.softType()
+		if built {
+			bt, err := jsonapi.BuildType(reflect.New(t.structType()).Interface())
+			if err != nil {
+				panic("BuildType: " + err.Error())
+			}
+			ty = bt
+		}
 		src := &jsonapi.SoftResource{Type: &ty}
 		var other *jsonapi.SoftResource
 		if useNew {
@@ -89,6 +117,9 @@ func c18Types(c *ctx, t typeSpec, useNew bool, ops []c18TOp) {
 	how := "Copy"
 	if useNew {
 		how = "New"
+	}
+	if built {
+		how += " of a soft resource over a struct-built type"
 	}
 	k := c.add("type-edits", fmt.Sprintf("%s%v %s; %s", t.name, t.fieldNames(), how, strings.Join(descs, "; ")),
 		fmt.Sprintf("%s ops=%d fields=%d", how, min(len(ops), 8), min(len(t.fields), 6)), len(ops) == 0,
